@@ -20,6 +20,8 @@ type jumpCtx struct {
 	breaks    []*State
 	continues []*State
 	gotoLabel string // label of the first statement of the loop body (goto L == continue)
+	fwd       map[string][]*State // forward gotos to labels of a statement list
+	passed    []string
 }
 
 type retCtx struct {
@@ -64,9 +66,34 @@ func shortFile(f string) string {
 // statements
 
 func (fx *Fx) execBlock(st *State, stmts []ast.Stmt) {
+	// labels of this statement list are targets of forward gotos
+	var jc *jumpCtx
 	for _, s := range stmts {
+		if ls, ok := s.(*ast.LabeledStmt); ok {
+			if jc == nil {
+				jc = &jumpCtx{fwd: map[string][]*State{}}
+			}
+			jc.fwd[ls.Label.Name] = nil
+		}
+	}
+	if jc != nil {
+		fx.jumps = append(fx.jumps, jc)
+		defer func() { fx.jumps = fx.jumps[:len(fx.jumps)-1] }()
+	}
+	for _, s := range stmts {
+		if ls, ok := s.(*ast.LabeledStmt); ok && jc != nil {
+			if pend := jc.fwd[ls.Label.Name]; len(pend) > 0 {
+				*st = *mergeStates(fx.c, append([]*State{st}, pend...))
+				jc.fwd[ls.Label.Name] = nil
+			}
+			jc.passed = append(jc.passed, ls.Label.Name)
+		}
 		if st.dead {
-			return
+			// a later label may still be reached by a pending goto
+			if jc == nil {
+				return
+			}
+			continue
 		}
 		fx.exec(st, s)
 	}
@@ -239,6 +266,18 @@ func (fx *Fx) execAssign(st *State, s *ast.AssignStmt) {
 			op = token.QUO
 		case token.REM_ASSIGN:
 			op = token.REM
+		case token.SHL_ASSIGN:
+			op = token.SHL
+		case token.SHR_ASSIGN:
+			op = token.SHR
+		case token.AND_ASSIGN:
+			op = token.AND
+		case token.OR_ASSIGN:
+			op = token.OR
+		case token.XOR_ASSIGN:
+			op = token.XOR
+		case token.AND_NOT_ASSIGN:
+			op = token.AND_NOT
 		default:
 			fx.unsup(s, "assignment operator %s", s.Tok)
 		}
@@ -326,6 +365,9 @@ func (fx *Fx) execBranch(st *State, s *ast.BranchStmt) {
 	case token.BREAK:
 		for i := len(fx.jumps) - 1; i >= 0; i-- {
 			j := fx.jumps[i]
+			if !j.isLoop && !j.isSwitch {
+				continue
+			}
 			if label == "" || j.label == label {
 				j.breaks = append(j.breaks, st.clone())
 				fx.kill(st)
@@ -348,6 +390,22 @@ func (fx *Fx) execBranch(st *State, s *ast.BranchStmt) {
 				j.continues = append(j.continues, st.clone())
 				fx.kill(st)
 				return
+			}
+			if j.fwd != nil {
+				if _, ok := j.fwd[label]; ok {
+					back := false
+					for _, p := range j.passed {
+						if p == label {
+							back = true
+						}
+					}
+					if back {
+						continue // a backward goto: only the loop-head form is supported (found further out)
+					}
+					j.fwd[label] = append(j.fwd[label], st.clone())
+					fx.kill(st)
+					return
+				}
 			}
 		}
 	}
@@ -479,9 +537,9 @@ func (fx *Fx) execTypeSwitch(st *State, s *ast.TypeSwitchStmt) {
 		rest.assume("(not " + cd + ")")
 		if obj := fx.info.Implicits[cc]; obj != nil {
 			if single != nil {
-				t.vars[obj] = fx.c.define(obj.Name(), fx.c.sortOf(single), fx.fromIface(t, v, single).T)
+				fx.declVar(t, obj, fx.fromIface(t, v, single))
 			} else {
-				t.vars[obj] = v.T
+				fx.declVar(t, obj, v)
 			}
 		}
 		if t.ghost != nil {
@@ -492,7 +550,7 @@ func (fx *Fx) execTypeSwitch(st *State, s *ast.TypeSwitchStmt) {
 	}
 	if defaultClause != nil && !rest.dead {
 		if obj := fx.info.Implicits[defaultClause]; obj != nil {
-			rest.vars[obj] = v.T
+			fx.declVar(rest, obj, v)
 		}
 		fx.execCaseBody(rest, defaultClause.Body)
 	}
